@@ -105,6 +105,17 @@ static Plan c07_gen(uint64_t seed, int tier, uint64_t index) {
     // group lists without duplicates (a duplicated group is an application error, not explored), key shares <= groups
     if (r.chance(1, 3)) { int n = 1 + (int) r.below(3); int st = (int) r.below(4); for (int i = 0; i < n; i++) { p.cfg["grp_c" + std::to_string(i)] = GROUPS[(st + i) % 4]; } p.cfg["key_shares"] = 1 + (int64_t) r.below((uint64_t) (n > 2 ? 2 : n)); }
     if (r.chance(1, 3)) { int n = 1 + (int) r.below(3); int st = (int) r.below(4); for (int i = 0; i < n; i++) { p.cfg["grp_s" + std::to_string(i)] = GROUPS[(st + i) % 4]; } }
+    // per-session signature-scheme lists (TLS 1.3 CertificateVerify of an RSA identity: rsa_pss_rsae_sha256/384/512), drawn only when both sides enable TLS 1.3
+    if (!dtls && (p.get("vers_c") & 4) && (p.get("vers_s") & 4) && r.chance(1, 3)) {
+        static const uint16_t PSS[] = { 0x0804, 0x0805, 0x0806 };
+        for (int side = 0; side < 2; side++) {
+            if (!r.chance(2, 3)) { continue; }
+            int n = 1 + (int) r.below(3), st = (int) r.below(3);
+            for (int i = 0; i < n; i++) { p.cfg[std::string(side ? "sig_s" : "sig_c") + std::to_string(i)] = PSS[(st + i) % 3]; }
+            // the TLS <= 1.2 list members a mixed-version pair would need are left out on purpose: those runs negotiate 1.3 or fail
+        }
+        if (r.chance(1, 3)) { p.cfg["cauth"] = KK_RSA2048; }
+    }
     if (r.chance(1, 5)) { p.cfg["ems_c"] = -1; }
     if (r.chance(1, 6)) { p.cfg["ems_s"] = 1; }
     if (r.chance(1, 4)) { p.cfg["fallback"] = 1; }
@@ -130,6 +141,22 @@ static std::vector<Plan> c07_fixed(int tier) {
         p.ops.push_back(Op("send", 0, 50)); p.ops.push_back(Op("send", 1, 50));
         v.push_back(p);
     } }
+    // signature-scheme lists: every ordered non-empty list pair over the three RSA-PSS schemes (rotations of each subset), with and without client authentication
+    {
+        static const uint16_t PSS[] = { 0x0804, 0x0805, 0x0806 };
+        std::vector<std::vector<uint16_t>> lists; lists.push_back({});
+        for (int st = 0; st < 3; st++) { for (int n = 1; n <= 3; n++) { std::vector<uint16_t> l; for (int i = 0; i < n; i++) { l.push_back(PSS[(st + i) % 3]); } lists.push_back(l); } }
+        for (size_t a = 0; a < lists.size(); a++) { for (size_t b = 0; b < lists.size(); b++) { for (int ca = 0; ca < 2; ca++) {
+            if (ca && ((a + b) % 3)) { continue; }
+            Plan p; p.seed = 74000 + (uint64_t) ((a * 16 + b) * 2 + (size_t) ca);
+            p.cfg["dtls"] = 0; p.cfg["vers_c"] = 4; p.cfg["vers_s"] = 4; p.cfg["sid_kind"] = KK_RSA2048; p.cfg["suite"] = TLS_AES_128_GCM_SHA256;
+            if (ca) { p.cfg["cauth"] = KK_RSA2048; }
+            for (size_t i = 0; i < lists[a].size(); i++) { p.cfg["sig_c" + std::to_string(i)] = lists[a][i]; }
+            for (size_t i = 0; i < lists[b].size(); i++) { p.cfg["sig_s" + std::to_string(i)] = lists[b][i]; }
+            p.ops.push_back(Op("send", 0, 50)); p.ops.push_back(Op("send", 1, 50));
+            v.push_back(p);
+        } } }
+    }
     // every single-field rewrite on a maximal configuration per version the pair would negotiate
     for (int top = 0; top < 3; top++) { for (int rw = 1; rw < RW_N; rw++) { for (int a = 0; a < 3; a++) {
         Plan p; p.seed = 72000 + (uint64_t) ((top * RW_N + rw) * 4 + a);
@@ -159,6 +186,15 @@ static std::vector<Plan> c07_fixed(int tier) {
 }
 
 static int top_bit(int64_t m) { int t = -1; for (int i = 0; i < 5; i++) { if (m >> i & 1) { t = i; } } return t; }
+
+// signature scheme each node put into its TLS 1.3 CertificateVerify, read from the plaintext handed to the AEAD seal (seam probe)
+struct SigCap { int scheme[4] = { -1, -1, -1, -1 }; };
+static void c07_probe(const vsim_probe_t *p, void *arg) {
+    SigCap *c = (SigCap *) arg;
+    if ((p->kind == VSIM_PR_GCM_ENC || p->kind == VSIM_PR_CHACHA_ENC) && p->pt_len >= 8 && p->pt_head[0] == 15 && p->node >= 0 && p->node < 4 && c->scheme[p->node] < 0) {
+        c->scheme[p->node] = p->pt_head[4] << 8 | p->pt_head[5];
+    }
+}
 
 static RunResult c07_exec(const Plan &p) {
     RunResult res;
@@ -200,6 +236,7 @@ static RunResult c07_exec(const Plan &p) {
                 }
                 out.push_back(raw);
             };
+            SigCap sigcap; vsim_probe_set(c07_probe, &sigcap);
             if (!w.connect()) {
                 // a configuration the API itself refuses (e.g. TLS 1.3 enabled without a 1.3 suite): nothing to judge
                 res.count("config_refused_by_api");
@@ -242,6 +279,22 @@ static RunResult c07_exec(const Plan &p) {
                             else if (!enabled(pc.groups_s, gs)) { res.violate("group_not_mutual", "server_never_enabled", "negotiated group " + std::to_string(gs) + " is not in the server's list " + gl); }
                             else { res.count("group." + std::to_string(gc)); }
                         }
+                        if (!res.violation && nvc == v_tls_1_3) {
+                            // signature scheme of each CertificateVerify: enabled (per-session list, or the build default when none was set) by signer and verifier
+                            auto sig_enabled = [](const std::vector<uint16_t> &l, int a) { if (l.empty()) { return true; } for (auto x : l) { if (x == a) { return true; } } return false; };
+                            std::string sl = "c["; for (auto x : pc.sigalgs_c) { sl += std::to_string(x) + " "; } sl += "] s["; for (auto x : pc.sigalgs_s) { sl += std::to_string(x) + " "; } sl += "]";
+                            int ss = sigcap.scheme[NODE_SERVER], sc2 = sigcap.scheme[NODE_CLIENT];
+                            if (ss >= 0) {
+                                res.count("sigalg.server." + std::to_string(ss));
+                                if (!sig_enabled(pc.sigalgs_s, ss)) { res.violate("sigalg_not_mutual", "server_signed_with_one_it_never_enabled", "the server's CertificateVerify uses signature scheme " + std::to_string(ss) + ", which is not in the server's own list " + sl); }
+                                else if (!sig_enabled(pc.sigalgs_c, ss)) { res.violate("sigalg_not_mutual", "client_accepted_one_it_never_enabled", "the server's CertificateVerify uses signature scheme " + std::to_string(ss) + ", which the client did not enable " + sl); }
+                            }
+                            if (!res.violation && sc2 >= 0) {
+                                res.count("sigalg.client." + std::to_string(sc2));
+                                if (!sig_enabled(pc.sigalgs_c, sc2)) { res.violate("sigalg_not_mutual", "client_signed_with_one_it_never_enabled", "the client's CertificateVerify uses signature scheme " + std::to_string(sc2) + ", which is not in the client's own list " + sl); }
+                                else if (!sig_enabled(pc.sigalgs_s, sc2)) { res.violate("sigalg_not_mutual", "server_accepted_one_it_never_enabled", "the client's CertificateVerify uses signature scheme " + std::to_string(sc2) + ", which the server did not enable " + sl); }
+                            }
+                        }
                         if (!res.violation && p.get("fallback") && top_bit(vs) > top_bit(vc_eff)) {
                             res.violate("fallback_accepted", ctx, "the ClientHello carried TLS_FALLBACK_SCSV, the server supports a higher version than the client offered, and the handshake completed");
                         }
@@ -260,6 +313,7 @@ static RunResult c07_exec(const Plan &p) {
                 res.fingerprint = mix64(w.fingerprint(), (uint64_t) rw * 1000 + rwa);
             }
         }
+        vsim_probe_set(nullptr, nullptr);
         w.teardown();
     }
     sim_global_close();
